@@ -19,7 +19,7 @@ MANIFEST = {
             'families (overflow modes, special-value options, fixup ladder, wrap) are Gallina models tied to /repo by '
             'exhaustive eighth-ulp-grid correspondence on every small format, with family-level theorems for the float '
             'and fixed families.',
-    'technique': 'machine-checked proof in Coq against Flocq generic rounding + extracted-model correspondence on exhaustive small-format grids',
+    'technique': 'machine-checked proof in Coq against Flocq generic rounding + extracted-model correspondence on exhaustive small-format grids + model of the integer core regenerated from the Python source on every run (py2v translator) with bridge lemmas re-proved',
 }
 
 
